@@ -333,3 +333,27 @@ def _replay_covout_init(model, contract):
 
 
 CONTRACTS["programs:Covout.__init__#two_explicit_outcomes"]["replay_hook"] = _replay_covout_init
+
+
+def _replay_remove_comp_by_label(model, contract):
+    """replay on the REAL ProgramSet.remove_comp, called with the compartment's full name (which the method accepts): afterwards no program targets the compartment"""
+    import logging
+    import warnings
+
+    warnings.filterwarnings("ignore")
+    import atomica as at
+
+    at.logger.setLevel(logging.ERROR)
+    P = at.demo("tb_simple", do_run=False)
+    ps = P.progsets[0].copy()
+    code = next(c for c in ps.comps if any(c in p.target_comps for p in ps.programs.values()))
+    label = ps.comps[code]["label"]
+    ps.remove_comp(label)
+    still = [p.name for p in ps.programs.values() if code in p.target_comps]
+    pre = dict(program_book="tb_simple", removed_by_label=label, code_name=code)
+    if code in ps.comps or still:
+        return dict(verdict="violates", detail="after remove_comp(%r) the compartment %r is %s and still targeted by %r" % (label, code, "listed" if code in ps.comps else "no longer listed", still), prestate=pre)
+    return dict(verdict="holds", detail="the compartment is gone from the table and from every program's targets", prestate=pre)
+
+
+CONTRACTS["programs:ProgramSet.remove_comp#two_compartments"]["replay_hook"] = _replay_remove_comp_by_label
